@@ -872,6 +872,10 @@ class Executor:
 
     def builtin(self, short, callee, args, st=None):
         """exact models of a few std functions that are not worth inlining"""
+        if re.search(r"^<u64 as (std::convert::)?From<(varint::)?VarInt>>::from$|VarInt::into_inner$", callee) and st is not None and len(args) == 1 \
+                and not isinstance(args[0], Val) and args[0][0] == "agg":
+            # VarInt(u64) -> u64: the only field
+            return self.read_key(st, args[0][1].key() + ".0", ("bv", 64, False))
         m = re.search(r"raw_eq::<\[u8; (\d+)\]>$", callee)
         if m and st is not None and int(m.group(1)) <= 32 and len(args) == 2 and all(not isinstance(a, Val) and a[0] == "ref" for a in args):
             # bytewise comparison of two fixed arrays behind references
